@@ -223,12 +223,15 @@ class ModelBuilder:
         return self._register_constructor(constructor)
 
     def __getstate__(self) -> dict[str, Any]:
-        state: dict[str, Any] = cast(dict, super().__getstate__())
-        state['__registry'] = [fqn(t) for t in self._registry]
+        state: dict[str, Any] = dict(vars(self))
+        state['_registry'] = {name: fqn(t) for name, t in self._registry.items()}
         return state
 
     def __setstate__(self, state: dict[str, Any]) -> None:
-        state['_registry'] = [fqntype(t) for t in state.get('_registrt', [])]
+        state = dict(state)
+        state['_registry'] = {
+            name: fqntype(t) for name, t in state.get('_registry', {}).items()
+        }
         for name, value in state.items():
             setattr(self, name, value)
 
